@@ -14,10 +14,13 @@
          same factor on both sides), provided beamspread and transmission/reflection are
          BOTH enabled;
      (6) view_reciprocity : P_ij(X-Y) = P_ji(rev Y - rev X) for a reciprocal scatterer.
-   `qratio_end_to_end_partial`: instantiating (1)-(4) on the concrete interface lists of the
-   14 immersion paths, from the `_auto` (angle) layer of the model, is NOT mechanised; the
-   harness measures Q c_last^2 sigma / Q' = kappa on the real code for every path, element
-   and scatterer. *)
+     (5') qratio_direct_path_L / _T : the chain (1)-(5) instantiated end to end on the direct
+         paths L and T (one interface) from the (sin, cos) layer of the interface model.
+   `qratio_end_to_end_partial`: the same instantiation for the 12 skip / double-skip paths
+   (2 and 3 interfaces: (2)-(4) apply to their interface lists, the bookkeeping is not
+   mechanised) and the passage from the `_auto` (angle) layer to the (sin, cos) layer inside
+   the path products; the harness measures Q c_last^2 sigma / Q' = kappa on the real code for
+   every path, element and scatterer (2e-15). *)
 From Coq Require Import List ZArith Bool Reals Lra.
 From Arim Require Import Base.Num Base.NumR Model.Interface Model.Beamspread Model.Weights
                          Proofs.InterfaceProofs Proofs.BeamspreadProofs Proofs.ReciprocityProofs.
@@ -134,6 +137,34 @@ Theorem qratio : forall D TRp TRr vd vd' Pg A lam c0 cl rho_f rho_s f X s,
   let Q' := D * TRr * (1 / sqrt vd') * A * sqrt lam in
   Q * (cl * cl) * s = (rho_f * c0 * sqrt (c0 * f) / rho_s) * Q'.
 Proof. exact qratio_combination. Qed.
+
+(* (5') the whole chain instantiated on the two direct paths (one interface), from the
+   (sin, cos) layer of the interface model: legs r1 (couplant) and r2 (block), any D, A, f *)
+Theorem qratio_direct_path_L : forall sf cf sl cl st ct rho_f rho_s v_f v_l v_t,
+  0 < cf -> 0 < cl -> 0 < ct -> 0 < rho_f -> 0 < rho_s -> 0 < v_f -> 0 < v_l -> 0 < v_t ->
+  sl * v_t = st * v_l ->
+  fluid_solid_n_sc NumR sf cf sl cl st ct rho_f rho_s v_f v_l v_t <> 0 ->
+  forall r1 r2 D A f, 0 < r1 -> 0 < r2 -> 0 < f ->
+  let FS := fluid_solid_sc NumR sf cf sl cl st ct rho_f rho_s v_f v_l v_t in
+  let LF := solid_l_fluid_sc NumR sf cf sl cl st ct rho_f rho_s v_f v_l v_t in
+  let g := v_f * (cl * cl) / (v_l * (cf * cf)) in
+  let Q  := D * (snd3 FS * ((rho_f * v_f) / (rho_s * v_l))) * (1 / sqrt (r1 + r2 / g)) * A in
+  let Q' := D * (thd3 LF * ((rho_s * v_l) / (rho_f * v_f))) * (1 / sqrt (r2 + r1 / (/ g))) * A * sqrt (v_l / f) in
+  Q * (v_l * v_l) * 1 = (rho_f * v_f * sqrt (v_f * f) / rho_s) * Q'.
+Proof. intros; apply qratio_direct_L; assumption. Qed.
+
+Theorem qratio_direct_path_T : forall sf cf sl cl st ct rho_f rho_s v_f v_l v_t,
+  0 < cf -> 0 < cl -> 0 < ct -> 0 < rho_f -> 0 < rho_s -> 0 < v_f -> 0 < v_l -> 0 < v_t ->
+  sl * v_t = st * v_l ->
+  fluid_solid_n_sc NumR sf cf sl cl st ct rho_f rho_s v_f v_l v_t <> 0 ->
+  forall r1 r2 D A f, 0 < r1 -> 0 < r2 -> 0 < f ->
+  let FS := fluid_solid_sc NumR sf cf sl cl st ct rho_f rho_s v_f v_l v_t in
+  let TF := solid_t_fluid_sc NumR sf cf sl cl st ct rho_f rho_s v_f v_l v_t in
+  let g := v_f * (ct * ct) / (v_t * (cf * cf)) in
+  let Q  := D * (thd3 FS * ((rho_f * v_f) / (rho_s * v_t))) * (1 / sqrt (r1 + r2 / g)) * A in
+  let Q' := D * (thd3 TF * ((rho_s * v_t) / (rho_f * v_f))) * (1 / sqrt (r2 + r1 / (/ g))) * A * sqrt (v_t / f) in
+  Q * (v_t * v_t) * (-1) = (rho_f * v_f * sqrt (v_f * f) / rho_s) * Q'.
+Proof. intros; apply qratio_direct_T; assumption. Qed.
 
 (* (6) *)
 Theorem view_reciprocity : forall kappa cx cy sx sy QiX Q'iX QjY Q'jY Sxy Syx,
